@@ -2,7 +2,7 @@
    Evaluated either by vm_compute inside coqc or by the OCaml program extracted from this file. *)
 From Coq Require Import ZArith List Bool String Ascii.
 From Coq.Strings Require Import Byte.
-From CP Require Import Core.Bytes Core.Result Core.Show Prim.Int Prim.Mpint Prim.Timestamp Base.Enum Base.Array Frame.LVFrame Frame.Units Frame.Entry Reader.Reader Spec.PL Spec.TlsSpec Spec.Ja3 Tls.Ja3Model Spec.KeyTag Spec.DnsSpec Dns.KeyTag Spec.SshSpec Ssh.Record Spec.OppSpec Opp.Rdp Text.Field Frame.Ssl2 Frame.SshPacket.
+From CP Require Import Core.Bytes Core.Result Core.Show Prim.Int Prim.Mpint Prim.Timestamp Base.Enum Base.Array Frame.LVFrame Frame.Units Frame.Entry Reader.Reader Spec.PL Spec.TlsSpec Spec.Ja3 Tls.Ja3Model Spec.KeyTag Spec.DnsSpec Dns.KeyTag Spec.SshSpec Spec.SshMsgSpec Ssh.Record Spec.OppSpec Opp.Rdp Text.Field Frame.Ssl2 Frame.SshPacket.
 From CPGen Require Import Tables.
 Import ListNotations.
 Local Open Scope string_scope.
@@ -162,6 +162,31 @@ Definition show_ext (e : extension) : string := string_of_Z (fst e) ++ ":" ++ he
 Definition show_exts (l : list extension) : string := match l with [] => "-" | _ => String.concat ";" (map show_ext l) end.
 Definition show_zs (l : list Z) : string := match l with [] => "-" | _ => String.concat "," (map string_of_Z l) end.
 Definition dash_hex (b : bytes) : string := match b with [] => "-" | _ => hex_of_bytes b end.
+(* ---- SSH transport-layer messages in the layout language of Spec/SshMsgSpec.v ---- *)
+Definition ssh_msg_of (name : string) (args : list string) : option (list sfield) :=
+  match name, args with
+  | "disc", [r; d; l] => Some (msg_disconnect (z_of_string r) (if String.eqb d "-" then [] else bytes_of_hex d) (if String.eqb l "-" then [] else bytes_of_hex l))
+  | "unimpl", [q] => Some (msg_unimplemented (z_of_string q))
+  | "newkeys", [] => Some msg_newkeys
+  | "dhinit", [e] => Some (msg_kexdh_init (z_of_string e))
+  | "dhreply", [ks; f; sg] => Some (msg_kexdh_reply (bytes_of_hex ks) (z_of_string f) (if String.eqb sg "-" then [] else bytes_of_hex sg))
+  | "gexreq", [mn; n; mx] => Some (msg_gex_request (z_of_string mn) (z_of_string n) (z_of_string mx))
+  | "gexgroup", [p; g] => Some (msg_gex_group (z_of_string p) (z_of_string g))
+  | "gexinit", [e] => Some (msg_gex_init (z_of_string e))
+  | "gexreply", [ks; f; sg] => Some (msg_gex_reply (bytes_of_hex ks) (z_of_string f) (if String.eqb sg "-" then [] else bytes_of_hex sg))
+  | _, _ => None
+  end.
+Definition show_sfield (f : sfield) : string :=
+  match f with
+  | FByte z => "B" ++ string_of_Z z
+  | FBool b => if b then "T" else "F"
+  | FU32 z => "U" ++ string_of_Z z
+  | FStr t => "S" ++ hex_of_bytes t
+  | FMpint z => "M" ++ string_of_Z z
+  end.
+Definition ssh_kinds_of (ctx : string) : Z -> option (list skind) :=
+  if String.eqb ctx "kexdh" then kinds_kexdh else if String.eqb ctx "gex" then kinds_gex else kinds_init.
+
 Definition show_opt (o : option bytes) : string := match o with Some b => "OK " ++ hex_of_bytes b | None => "NONE" end.
 Definition hex_or_empty (s : string) : bytes := if String.eqb s "-" then [] else bytes_of_hex s.
 Definition show_ch (h : client_hello) : string :=
@@ -257,6 +282,17 @@ Definition run_words (ws : list string) : string :=
   | ["mysqlssl320"; caps; mx] => "OK " ++ hex_of_bytes (enc_mysql_ssl_request320 (z_of_string caps) (z_of_string mx))
   | ["ovpnctl"; op; sess; acks; remote; pid; h] =>
       "OK " ++ hex_of_bytes (enc_openvpn_control (z_of_string op) (z_of_string sess) (zlist_of_string acks) (z_of_string remote) (z_of_string pid) (hex_or_empty h))
+  | ["ovpnack"; sess; acks; remote] => "OK " ++ hex_of_bytes (enc_openvpn_ack (z_of_string sess) (zlist_of_string acks) (z_of_string remote))
+  | ["ovpnhrc"; sess; pid] => "OK " ++ hex_of_bytes (enc_openvpn_hard_reset_client (z_of_string sess) (z_of_string pid))
+  | ["ovpnhrs"; sess; acks; remote; pid] =>
+      "OK " ++ hex_of_bytes (enc_openvpn_hard_reset_server (z_of_string sess) (zlist_of_string acks) (z_of_string remote) (z_of_string pid))
+  | ["ovpndec"; h] =>
+      match dec_openvpn_header (bytes_of_hex h) with
+      | Some (op, s, acks, r, body) =>
+          "OK " ++ string_of_Z op ++ " " ++ string_of_Z s ++ " " ++ (match acks with [] => "-" | _ => String.concat "," (map string_of_Z acks) end)
+               ++ " " ++ (match r with Some z => string_of_Z z | None => "_" end) ++ " " ++ (match body with [] => "-" | _ => hex_of_bytes body end)
+      | None => "NONE"
+      end
   | ["ovpntcp"; h] => show_opt (enc_openvpn_tcp (hex_or_empty h))
   | ["pgssl"] => "OK " ++ hex_of_bytes enc_pg_ssl_request
   | ["bannerenc"; proto; sw; c] =>
@@ -279,6 +315,12 @@ Definition run_words (ws : list string) : string :=
       "OK " ++ hex_of_bytes (enc_ssl2_client_hello 2 (zlist_of_string ciphers) (hex_or_empty sid) (hex_or_empty ch))
   | ["ssl2shenc"; hit; ct; cert; ciphers; cid] =>
       "OK " ++ hex_of_bytes (enc_ssl2_server_hello (z_of_string hit) (z_of_string ct) 2 (hex_or_empty cert) (zlist_of_string ciphers) (hex_or_empty cid))
+  | "sshmsg" :: name :: args => match ssh_msg_of name args with Some fs => "OK " ++ hex_of_bytes (enc_fields fs) | None => "BADCMD" end
+  | ["sshmsgdec"; ctx; h] =>
+      match dec_msg (ssh_kinds_of ctx) (bytes_of_hex h) with
+      | Some (fs, r) => "OK " ++ String.concat " " (map show_sfield fs) ++ " n=" ++ string_of_Z (zlen (bytes_of_hex h) - zlen r)
+      | None => "NONE"
+      end
   | ["sshpad"; l] => "OK " ++ string_of_Z (padding_length (z_of_string l)) ++ " " ++ string_of_Z (packet_length (z_of_string l))
   | ["mpintspec"; z] => "OK " ++ hex_of_bytes (enc_mpint (z_of_string z))
   | ["kexenc"; cookie; lists; f; res] =>
@@ -290,6 +332,8 @@ Definition run_words (ws : list string) : string :=
   | ["rsablobn"; nm; e; n] => "OK " ++ hex_of_bytes (enc_rsa_blob_named (bytes_of_hex nm) (z_of_string e) (z_of_string n))
   | ["rsablob"; e; n] => "OK " ++ hex_of_bytes (enc_rsa_blob (z_of_string e) (z_of_string n))
   | ["dssblob"; p; q; g; y] => "OK " ++ hex_of_bytes (enc_dss_blob (z_of_string p) (z_of_string q) (z_of_string g) (z_of_string y))
+  | ["ecblob"; ident; size; x; y] =>
+      "OK " ++ hex_of_bytes (enc_ecdsa_blob (bytes_of_hex ident) (Z.to_nat (z_of_string size)) (z_of_string x) (z_of_string y))
   | ["edblob"; k] => "OK " ++ hex_of_bytes (enc_ed25519_blob (bytes_of_hex k))
   | ["keytag"; h] => "OK " ++ string_of_Z (key_tag (bytes_of_hex h))
   | ["keytagref"; h] => "OK " ++ string_of_Z (rfc4034_keytag (bytes_of_hex h))
@@ -301,6 +345,25 @@ Definition run_words (ws : list string) : string :=
   | ["rrsigenc"; ty; alg; labels; ttl; ex; inc; kt; name; sig] =>
       show_opt (enc_rrsig (z_of_string ty) (z_of_string alg) (z_of_string labels) (z_of_string ttl) (z_of_string ex) (z_of_string inc)
                           (z_of_string kt) (hexlist_of_string name) (hex_or_empty sig))
+  | ["dnskeyecenc"; flags; alg; x; y] =>
+      match enc_ecdsa_key (z_of_string alg) (z_of_string x) (z_of_string y) with
+      | Some k => "OK " ++ hex_of_bytes (enc_dnskey (z_of_string flags) (z_of_string alg) k) | None => "NONE" end
+  | ["dnskeyedenc"; flags; alg; k] =>
+      match enc_eddsa_key (z_of_string alg) (bytes_of_hex k) with
+      | Some k' => "OK " ++ hex_of_bytes (enc_dnskey (z_of_string flags) (z_of_string alg) k') | None => "NONE" end
+  | ["dnskeydec"; h] =>
+      match dec_dnskey (bytes_of_hex h) with
+      | Some (f, p, a, k) =>
+          if negb (p =? 3) then "NONE" else
+          match dec_ecdsa_key a k, ecdsa_curve_oid a with
+          | Some (x, y), Some oid => "OK " ++ string_of_Z f ++ " " ++ string_of_Z a ++ " EC " ++ String.concat "." (map string_of_Z oid)
+                                      ++ " " ++ string_of_Z x ++ " " ++ string_of_Z y
+          | _, _ => match enc_eddsa_key a k with
+                    | Some k' => "OK " ++ string_of_Z f ++ " " ++ string_of_Z a ++ " ED " ++ hex_of_bytes k'
+                    | None => "NONE" end
+          end
+      | None => "NONE"
+      end
   | ["dnskeyrsaenc"; flags; alg; e; m] => "OK " ++ hex_of_bytes (enc_dnskey (z_of_string flags) (z_of_string alg) (enc_rsa_key (z_of_string e) (bytes_of_hex m)))
   | ["chenc"; ver; rnd; sid; suites; comps; exts] =>
       show_opt (enc_client_hello {| ch_version := z_of_string ver; ch_random := bytes_of_hex rnd; ch_session_id := hex_or_empty sid;
@@ -315,6 +378,21 @@ Definition run_words (ws : list string) : string :=
                                     sh_suite := z_of_string suite; sh_compression := z_of_string comp; sh_extensions := exts_of_string exts |})
   | ["certenc"; certs] => show_opt (enc_certificate (hexlist_of_string certs))
   | ["shdenc"] => show_opt enc_server_hello_done
+  | ["certreqenc"; types; sa; cas] =>
+      show_opt (enc_certificate_request (zlist_of_string types) (if String.eqb sa "_" then None else Some (zlist_of_string sa)) (hexlist_of_string cas))
+  | ["certreqdec"; w; h] =>
+      match dec_certificate_request (String.eqb w "1") (bytes_of_hex h) with
+      | Some ((types, sa, cas), r) =>
+          "OK " ++ String.concat "," (map string_of_Z types) ++ ";" ++ match sa with None => "_" | Some l => String.concat "," (map string_of_Z l) end
+               ++ ";" ++ String.concat "," (map hex_of_bytes cas) ++ " n=" ++ string_of_Z (zlen (bytes_of_hex h) - zlen r)
+      | None => "NONE"
+      end
+  | ["certstenc"; ty; h] => show_opt (enc_certificate_status (z_of_string ty) (hex_or_empty h))
+  | ["certstdec"; h] =>
+      match dec_certificate_status (bytes_of_hex h) with
+      | Some ((ty, resp), r) => "OK " ++ string_of_Z ty ++ " " ++ hex_of_bytes resp ++ " n=" ++ string_of_Z (zlen (bytes_of_hex h) - zlen r)
+      | None => "NONE"
+      end
   | ["recenc"; ct; ver; frag] => show_opt (enc_record (z_of_string ct) (z_of_string ver) (hex_or_empty frag))
   | ["alertenc"; l; d] => "OK " ++ hex_of_bytes (enc_alert (z_of_string l) (z_of_string d))
   | ["ccsenc"] => "OK " ++ hex_of_bytes enc_ccs
